@@ -256,7 +256,7 @@ def modfunc(ex, state, mod, name, args, kw, line):
             mr, o = (b, a) if isinstance(b, SMaxRank) else (a, b)
             return z3.If(mr.is_inf, zi(o), z3.If(zi(o) < mr.val, zi(o), mr.val))
         return z3.If(zi(a) < zi(b), zi(a), zi(b))
-    if name == 'amin' and len(args) == 1 and isinstance(args[0], SList) and args[0].items is not None:
+    if name in ('amin', 'min') and len(args) == 1 and isinstance(args[0], SList) and args[0].items is not None:
         items = args[0].items
         r = items[0]
         for x in items[1:]:
